@@ -150,9 +150,6 @@ Definition rel (st : sst) (s : env) : Prop :=
 Lemma rel_st0 : rel st0 None.
 Proof. reflexivity. Qed.
 
-Lemma v_is_beq v s : v_is v s = beq v s.
-Proof. reflexivity. Qed.
-
 Lemma cmd_step_rel g st s v arg c st' :
   rel st s -> cmd_step g st v arg = (c, st') ->
   rel st' (ref_step g s (EvCmd v arg c)) /\ ev_ok s (EvCmd v arg c) = true.
@@ -245,7 +242,7 @@ Proof.
       specialize (IH g (set_seen st false) rest' qq' None Hrel').
       destruct (session_log f g (set_seen st false) rest' qq') as [l e].
       cbn [fst] in *. destruct IH as [IH1 IH2]. cbn [ref_subs ref_ok ref_step log_subs flat_map ev_subs app map] in *.
-      rewrite Hok, IH2. split; [|reflexivity]. rewrite Hs. unfold env_of at 2. cbn [app]. f_equal. exact IH1.
+      rewrite Hok, IH2. split; [|reflexivity]. rewrite Hs. change (env_of sub) with (u_sender sub, u_rcpts sub). cbv iota. cbn [app]. f_equal. exact IH1.
   - destruct (v_is v s_quit); [split; reflexivity|].
     destruct (cmd_step g st v arg) as [c st'] eqn:Ec.
     destruct (cmd_step_rel g st s v arg c st' Hrel Ec) as [Hrel' Hok].
@@ -274,7 +271,187 @@ Corollary smtp_session_submissions_match_reference : forall g input qq,
   ref_ok g None l = true.
 Proof. intros g input qq. exact (session_submissions_match_reference (S (length input)) g input qq). Qed.
 
+(* ---------------------------------------------------------------- declarative reading of the tracker *)
+(* The tracker is itself characterised declaratively, so that the theorem can be read without it:
+   a completed DATA at position [pre ++ _ :: post] of the log has, earlier in the log, a MAIL answered
+   250 followed by a stretch [mid] that contains no MAIL/HELO/EHLO/RSET answered 250 and no completed
+   DATA; its sender is the address of that MAIL and its recipients are exactly the RCPTs answered 250
+   in [mid], in order, and there is at least one. *)
+Definition ref_run (g : scfg) (s : env) (l : list event) : env := fold_left (ref_step g) l s.
+
+Definition is_reset (ev : event) : bool :=
+  match ev with
+  | EvCmd v _ c => (c =? 250) && (beq v s_mail || beq v s_helo || beq v s_ehlo || beq v s_rset)
+  | EvDataDone _ _ => true
+  | _ => false
+  end.
+Definition quiet (mid : list event) : bool := forallb (fun ev => negb (is_reset ev)) mid.
+Definition rcpt_of (g : scfg) (ev : event) : list bytes :=
+  match ev with
+  | EvCmd v arg c => if (c =? 250) && beq v s_rcpt then [parsed g arg ++ relay_suffix g] else []
+  | _ => []
+  end.
+Definition accepted_rcpts (g : scfg) (mid : list event) : list bytes := flat_map (rcpt_of g) mid.
+
+Lemma ref_run_snoc g s l ev : ref_run g s (l ++ [ev]) = ref_step g (ref_run g s l) ev.
+Proof. unfold ref_run. rewrite fold_left_app. reflexivity. Qed.
+
+Lemma quiet_snoc mid ev : quiet mid = true -> is_reset ev = false -> quiet (mid ++ [ev]) = true.
+Proof. intros Hq He. unfold quiet. rewrite forallb_app. fold (quiet mid). rewrite Hq. cbn. rewrite He. reflexivity. Qed.
+
+Lemma accepted_snoc g mid ev : accepted_rcpts g (mid ++ [ev]) = accepted_rcpts g mid ++ rcpt_of g ev.
+Proof. unfold accepted_rcpts. rewrite flat_map_app. cbn. rewrite app_nil_r. reflexivity. Qed.
+
+Lemma ref_run_some g : forall pre m rs,
+  ref_run g None pre = Some (m, rs) ->
+  exists pre0 arg mid, pre = pre0 ++ EvCmd s_mail arg 250 :: mid /\ quiet mid = true /\
+      m = parsed g arg /\ rs = accepted_rcpts g mid.
+Proof.
+  induction pre as [|ev pre IH] using rev_ind; intros m rs H; [discriminate|].
+  rewrite ref_run_snoc in H.
+  (* an event that leaves the tracker unchanged, is not a reset and adds no recipient *)
+  assert (Hkeep : ref_step g (ref_run g None pre) ev = ref_run g None pre -> is_reset ev = false -> rcpt_of g ev = [] ->
+                  exists pre0 arg mid, pre ++ [ev] = pre0 ++ EvCmd s_mail arg 250 :: mid /\ quiet mid = true /\
+      m = parsed g arg /\ rs = accepted_rcpts g mid).
+  { intros E Hr Hc. rewrite E in H. destruct (IH m rs H) as (pre0 & arg & mid & -> & Hq & -> & ->).
+    exists pre0, arg, (mid ++ [ev]). rewrite <- app_assoc. cbn [app]. repeat split.
+    - apply quiet_snoc; assumption.
+    - rewrite accepted_snoc, Hc, app_nil_r. reflexivity. }
+  destruct ev as [v arg c| |c|cs|c sub]; try (apply Hkeep; reflexivity).
+  2:{ discriminate. }
+  cbn [ref_step is_reset rcpt_of] in *.
+  destruct (c =? 250) eqn:Ec; [|apply Hkeep; reflexivity].
+  apply N.eqb_eq in Ec. subst c. cbn [andb] in *.
+  destruct (beq v s_mail) eqn:Em.
+  { apply beq_eq in Em. subst v. injection H as <- <-. exists pre, arg, []. repeat split. }
+  destruct (beq v s_rcpt) eqn:Er.
+  { apply beq_eq in Er. subst v.
+    destruct (ref_run g None pre) as [[m0 rs0]|] eqn:E0; [|discriminate]. injection H as <- <-.
+    destruct (IH m0 rs0 eq_refl) as (pre0 & arg0 & mid & -> & Hq & -> & ->).
+    exists pre0, arg0, (mid ++ [EvCmd s_rcpt arg 250]). rewrite <- app_assoc. cbn [app]. repeat split.
+    - apply quiet_snoc; [assumption|reflexivity].
+    - rewrite accepted_snoc. reflexivity. }
+  cbn [orb] in *.
+  destruct (beq v s_helo || beq v s_ehlo || beq v s_rset) eqn:Eh; [discriminate|].
+  apply Hkeep; reflexivity.
+Qed.
+
+(* position-wise reading of [ref_subs]/[ref_ok] *)
+Lemma ref_at_done g : forall pre s l c sub post,
+  map env_of (log_subs l) = ref_subs g s l -> ref_ok g s l = true ->
+  l = pre ++ EvDataDone c sub :: post ->
+  ref_run g s pre = Some (env_of sub) /\ u_rcpts sub <> [].
+Proof.
+  induction pre as [|ev pre IH]; intros s l c sub post Hm Hk ->.
+  - cbn [app ref_ok ev_ok log_subs flat_map ev_subs map ref_subs] in *.
+    apply andb_prop in Hk as [Hk _]. apply andb_prop in Hk as [Hin Hne].
+    destruct s as [[m rs]|]; [|discriminate]. cbn [app] in Hm. injection Hm as Hm1 Hm2 _.
+    split; [unfold env_of; cbn; congruence|]. destruct (u_rcpts sub); [discriminate|discriminate].
+  - cbn [app ref_ok log_subs flat_map ref_subs] in *. apply andb_prop in Hk as [Hev Hk].
+    change (ref_run g s (ev :: pre)) with (ref_run g (ref_step g s ev) pre).
+    apply (IH (ref_step g s ev) (pre ++ EvDataDone c sub :: post) c sub post); [|exact Hk|reflexivity].
+    destruct ev as [v arg c0| |c0|cs|c0 sub0]; try exact Hm.
+    cbn [ev_ok] in Hev. apply andb_prop in Hev as [Hin _].
+    destruct s as [[m rs]|]; [|discriminate]. cbn [ev_subs app map] in Hm. injection Hm as _ _ Hm. exact Hm.
+Qed.
+
+Lemma ref_at_gone g : forall pre s l cs post,
+  ref_ok g s l = true -> l = pre ++ EvDataGone cs :: post ->
+  in_transaction_with_rcpt (ref_run g s pre) = true /\ hd 0 cs = 354.
+Proof.
+  induction pre as [|ev pre IH]; intros s l cs post Hk ->.
+  - cbn [app ref_ok ev_ok] in Hk. apply andb_prop in Hk as [Hk _]. apply andb_prop in Hk as [Hin Hc].
+    split; [exact Hin|]. destruct cs as [|c0 cs]; [discriminate|]. apply N.eqb_eq in Hc. exact Hc.
+  - cbn [app ref_ok] in Hk. apply andb_prop in Hk as [_ Hk].
+    change (ref_run g s (ev :: pre)) with (ref_run g (ref_step g s ev) pre).
+    apply (IH (ref_step g s ev) (pre ++ EvDataGone cs :: post) cs post); [exact Hk|reflexivity].
+Qed.
+
+(* C08, declaratively, for every input, configuration and queue behaviour: every message handed to the
+   queue by [session] comes from a DATA that is preceded in the same session by a MAIL answered 250
+   and, after it, only by commands that are neither MAIL/HELO/EHLO/RSET answered 250 nor a completed
+   DATA; the envelope sender is that MAIL's address and the envelope recipients are exactly the RCPTs
+   answered 250 in between, in order, at least one. *)
+Theorem session_submission_sequenced : forall fuel g input qq sub,
+  In sub (snd (fst (session fuel g st0 input qq))) ->
+  exists pre0 arg mid c post,
+    fst (session_log fuel g st0 input qq) = pre0 ++ EvCmd s_mail arg 250 :: mid ++ EvDataDone c sub :: post /\
+      quiet mid = true /\
+      u_sender sub = parsed g arg /\ u_rcpts sub = accepted_rcpts g mid /\ u_rcpts sub <> [].
+Proof.
+  intros fuel g input qq sub Hin. rewrite session_is_projection in Hin. cbn [fst snd] in Hin.
+  destruct (session_log_matches_reference fuel g st0 input qq None rel_st0) as [Hm Hk].
+  set (l := fst (session_log fuel g st0 input qq)) in *.
+  unfold log_subs in Hin. apply in_flat_map in Hin as (ev & Hev & Hsub).
+  destruct ev as [v arg c| |c|cs|c sub0]; try contradiction. destruct Hsub as [->|[]].
+  apply in_split in Hev as (pre & post & Hl).
+  destruct (ref_at_done g pre None l c sub post Hm Hk Hl) as [Hrun Hne].
+  destruct (ref_run_some g pre _ _ Hrun) as (pre0 & arg & mid & -> & Hq & Hs & Hr).
+  exists pre0, arg, mid, c, post. rewrite Hl, <- app_assoc. cbn [app]. repeat split; assumption.
+Qed.
+
+(* the same for a DATA that was answered 354 but not completed (client vanished, bare LF) *)
+Theorem session_data354_sequenced : forall fuel g input qq pre cs post,
+  fst (session_log fuel g st0 input qq) = pre ++ EvDataGone cs :: post ->
+  hd 0 cs = 354 /\
+  exists pre0 arg mid, pre = pre0 ++ EvCmd s_mail arg 250 :: mid /\ quiet mid = true /\ accepted_rcpts g mid <> [].
+Proof.
+  intros fuel g input qq pre cs post Hl.
+  destruct (session_log_matches_reference fuel g st0 input qq None rel_st0) as [_ Hk].
+  destruct (ref_at_gone g pre None _ cs post Hk Hl) as [Hin Hc]. split; [exact Hc|].
+  destruct (ref_run g None pre) as [[m rs]|] eqn:Hrun; [|discriminate].
+  destruct (ref_run_some g pre m rs Hrun) as (pre0 & arg & mid & -> & Hq & _ & Hr).
+  exists pre0, arg, mid. repeat split; [assumption|]. rewrite <- Hr. destruct rs; [discriminate|discriminate].
+Qed.
+
+(* ---------------------------------------------------------------- non-vacuity *)
+(* A pipelined session with three transactions: the first has a rejected RCPT (553: not in
+   rcpthosts), the second is aborted by RSET (the following DATA and RCPT get 503 and its
+   recipient e@ok is never delivered to), the third has two accepted recipients. *)
+Module SessionExample.
+  Import Ascii String.
+  Fixpoint bs (s : string) : list N :=
+    match s with EmptyString => [] | String a s' => N_of_ascii a :: bs s' end.
+  Definition ln (s : string) : list N := bs s ++ [10].
+  Definition crlf (s : string) : list N := bs s ++ [13; 10].
+  Definition g0 : scfg :=
+    {| g_greeting := []; g_liphost := None; g_ipme := []; g_rcpthosts := Some [bs "ok"]; g_morercpthosts := [];
+       g_bmf := None; g_databytes := 0; g_relayclient := None; g_remotehost := []; g_remoteip := [];
+       g_remoteinfo := None; g_local := [] |}.
+  Definition input0 : list N :=
+    ln "MAIL FROM:<a@x>" ++ ln "RCPT TO:<b@ok>" ++ ln "RCPT TO:<c@no>" ++ ln "DATA" ++ crlf "hi" ++ crlf "." ++
+    ln "MAIL FROM:<d@x>" ++ ln "RCPT TO:<e@ok>" ++ ln "RSET" ++ ln "DATA" ++ ln "RCPT TO:<f@ok>" ++
+    ln "MAIL FROM:<g@x>" ++ ln "RCPT TO:<h@ok>" ++ ln "RCPT TO:<i@ok>" ++ ln "DATA" ++ crlf "yo" ++ crlf "." ++
+    ln "QUIT".
+
+  Example session_two_transactions :
+    fst (fst (smtp_session g0 input0 [])) =
+      [250; 250; 553; 354; 250;   250; 250; 250; 503; 503;   250; 250; 250; 354; 250;   221] /\
+    map env_of (snd (fst (smtp_session g0 input0 []))) =
+      [(bs "a@x", [bs "b@ok"]); (bs "g@x", [bs "h@ok"; bs "i@ok"])] /\
+    ref_subs g0 None (fst (session_log (S (List.length input0)) g0 st0 input0 [])) =
+      [(bs "a@x", [bs "b@ok"]); (bs "g@x", [bs "h@ok"; bs "i@ok"])] /\
+    snd (smtp_session g0 input0 []) = Some 0.
+  Proof. vm_compute. repeat split. Qed.
+
+  (* the tracker on a hand-written log, no model involved: relay suffix appended, RCPT outside a
+     transaction ignored, HELO discards the open transaction *)
+  Example tracker_alone :
+    let g := {| g_greeting := []; g_liphost := None; g_ipme := []; g_rcpthosts := None; g_morercpthosts := [];
+                g_bmf := None; g_databytes := 0; g_relayclient := Some (bs "@relay"); g_remotehost := [];
+                g_remoteip := []; g_remoteinfo := None; g_local := [] |} in
+    ref_run g None [EvCmd s_rcpt (bs "TO:<z>") 250;
+                    EvCmd s_mail (bs "FROM:<a>") 250; EvCmd s_rcpt (bs "TO:<b>") 250;
+                    EvCmd s_helo (bs "h") 250;
+                    EvCmd s_mail (bs "FROM:<c>") 250; EvCmd s_rcpt (bs "TO:<d>") 250; EvCmd s_rcpt (bs "TO:<e>") 553;
+                    EvCmd s_rcpt (bs "<f>") 250]
+    = Some (bs "c", [bs "d@relay"; bs "f@relay"]).
+  Proof. vm_compute. reflexivity. Qed.
+End SessionExample.
+
 Print Assumptions session_is_projection.
 Print Assumptions session_log_matches_reference.
 Print Assumptions session_submissions_match_reference.
 Print Assumptions smtp_session_submissions_match_reference.
+Print Assumptions session_submission_sequenced.
+Print Assumptions session_data354_sequenced.
